@@ -11,6 +11,8 @@ Inductive c14case :=
 | CQSize (dm : dmodel) (q : rentity)         (* QueryParser::parse + PreparedQueries::build: [resolved; #SELECT; #"("; #")"] *)
 | CAgg (q : aquery)                          (* one entity with the whole clause language, through GraphDatabaseService::query: [outcome; probe] *)
 | CDel (p : option pval)                     (* delete { E { $id } } through GraphDatabaseService::delete: [outcome; probe] *)
+| CFrames (info : fstep) (ans qs evs : list fstep)   (* one QUIC connection to a real DiscretEndpoint: [info; answers; queries; events delivered; big allocation; probe] *)
+| CIngest (rights_from mdate : Z)            (* a row with this mdate through add_nodes: [outcome; write probe] *)
 | CObs (stream : N).                         (* streams without a model verdict: [panics; probe] *)
 
 (* outcome codes in observations: 0 Ok, 1 Err, 2 a thread / the call panicked, 3 no answer in time *)
@@ -32,6 +34,8 @@ Definition run_C14 (c : c14case) : list Z :=
                    end
   | CAgg q => pool_run default_parallelism [aquery_outcome q]
   | CDel p => pool_run default_parallelism [delete_outcome p]
+  | CFrames info ans qs evs => connection_obs info ans qs evs ++ [1]
+  | CIngest rf md => pool_run 1 [ingest_outcome rf md]         (* one writer thread *)
   | CObs _ => [0; 1]
   end.
 
@@ -181,6 +185,16 @@ Definition spec_C14 (c : c14case) (obs : list Z) : bool :=
                    | _ => false end
   | CAgg q => steps_ok [aquery_valid q] obs
   | CDel p => steps_ok [delete_valid p] obs
+  | CFrames info ans qs evs =>
+      (* no reader is made to request more than the bound, nothing is delivered that was not
+         sent, the endpoint serves the next connection *)
+      match obs with
+      | [i; a; q; e; big; probe] =>
+          Z.eqb big 0 && Z.eqb probe 1 && (Z.eqb i 0 || Z.eqb i 1)
+          && Z.leb 0 a && Z.leb a (Z.of_nat (List.length ans)) && Z.leb 0 q && Z.leb q (Z.of_nat (List.length qs))
+          && Z.leb 0 e && Z.leb e (Z.of_nat (List.length evs))
+      | _ => false end
+  | CIngest _ _ => steps_ok [false] obs
   | CObs _ => zlist_eqb obs [0; 1]
   end.
 
@@ -199,6 +213,8 @@ Fixpoint nn_nested (c : cfield) : bool :=
 
 (* 5: blank search text; 6: selection paths beyond the engine's parser stack;
    7: nested non-nullable references (each level is compiled twice);
+   9: a ConnectionInfo frame whose announced length is beyond the bound (allocated before any check);
+   10: an ingested row whose date the calendar cannot hold;
    8: in an aggregate selection, a WHERE filter written on the selected json value (its name is a
       reference field or only the alias of a selected field) *)
 Definition k5_entity (c : centity) : bool := negb (search_ok c).
@@ -218,6 +234,8 @@ Definition known_C14 (c : c14case) : list Z :=
       | Some ce => flag 7 (k7_entity ce)
       | None => [] end
   | CAgg q => flag 5 (search_blank q) ++ flag 8 (value_filter_on_aggregate q)
+  | CFrames info _ _ _ => flag 9 (match info with FFrame len _ _ => N.leb alloc_bound len | FShortLen => false end)
+  | CIngest rf md => flag 10 (Z.leb rf md && Z.ltb max_calendar_ms md)
   | _ => []
   end.
 
